@@ -218,8 +218,8 @@ func (r *Run) collectAccesses(root *Func, path *Path, held []lockset, sink func(
 			}
 		case EvGuard:
 			if ev.GKind == GRange {
-				if rs, ok := ev.Stmt.(*ast.RangeStmt); ok {
-					rec(rs.X, false)
+				if ev.Over != nil {
+					rec(ev.Over, false)
 				}
 			} else if ev.Cond != nil {
 				recShallow(ev.Cond, func(x ast.Expr) { rec(x, false) })
